@@ -94,6 +94,7 @@ type dnsAns struct {
 	ttl      uint32 // lifetime of the answer as a whole: the MINIMUM TTL over its records
 	ttlMax   uint32 // largest TTL of a record (== ttl unless the answer mixes TTLs)
 	ttlFirst uint32 // TTL of the first record
+	repeats  int    // times the upstream sent this very answer again
 	mix      int    // 0 uniform TTLs, 1 CNAME (long TTL) first then short-lived addresses, 2 first address long-lived, the others short
 	rcode    int
 	empty    bool
@@ -319,6 +320,11 @@ type dnsWorld struct {
 	fwds    []*dnsFwd
 	curFwd  map[string]*dnsFwd   // forwarder whose ForwardDNS runs on a task
 	evictCause map[*DnsCache]string
+	entryBitmap map[*DnsCache][]uint32 // domain-rule bitmap in force when the entry was created / restored
+	focus      *dnsEntryObs            // entry the last pause was placed relative to
+	bitmapGen  int                     // generation of the name -> bitmap table (changes at reloads in C10 mode)
+	overlapZeroed map[string]bool
+	lastAns    map[[3]int]*dnsAns      // last right answer per (upstream, name, type)
 	chains  map[string]*dnsChain // current chain per task
 	allChains []*dnsChain
 
@@ -348,7 +354,7 @@ func dnsNewWorld(s *verifsim.Sim, mode int) *dnsWorld {
 	logger := logrus.New()
 	logger.SetOutput(io.Discard)
 	w := &dnsWorld{s: s, T: s.T, mode: mode, log: logger, spec: map[[3]int]dnsAnsSpec{}, vers: map[[3]int]int{},
-		chains: map[string]*dnsChain{}, curOp: map[string]*dnsOp{}, curFwd: map[string]*dnsFwd{}, evictCause: map[*DnsCache]string{}}
+		chains: map[string]*dnsChain{}, curOp: map[string]*dnsOp{}, curFwd: map[string]*dnsFwd{}, evictCause: map[*DnsCache]string{}, entryBitmap: map[*DnsCache][]uint32{}, lastAns: map[[3]int]*dnsAns{}, overlapZeroed: map[string]bool{}}
 	w.asis = netip.MustParseAddrPort("10.9.9.9:53")
 	return w
 }
@@ -484,6 +490,26 @@ func (w *dnsWorld) newAnswer(up, name int, qtype uint16) *dnsAns {
 	default:
 		a.rrs = append(a.rrs, &dnsmessage.TXT{Hdr: hdr(dnsmessage.TypeTXT), Txt: []string{fmt.Sprintf("ans=%d", a.id)}})
 	}
+	return a
+}
+
+// nextAnswer is the upstream's regular answer to a question. In the modes where it
+// is sound (C10, C18, C08) an upstream sometimes repeats its previous answer for
+// that (upstream, name, type) verbatim — same records, same addresses, same TTLs —
+// which is what a refresh of an unchanged name looks like. Derived from existing
+// draws: the residue 2 of the same formula that selects the mixed-TTL variants.
+func (w *dnsWorld) nextAnswer(up, name int, qtype uint16) *dnsAns {
+	k := [3]int{up, name, dnsTypeIdx(qtype)}
+	if w.mode == dnsModeC10 || w.mode == dnsModeC18 || w.mode == dnsModeC08 {
+		if last := w.lastAns[k]; last != nil && !last.empty && (up+name+dnsTypeIdx(qtype)+w.vers[k])%4 == 2 {
+			w.vers[k]++
+			last.repeats++
+			w.s.Probe("dns.answer-repeated-verbatim")
+			return last
+		}
+	}
+	a := w.newAnswer(up, name, qtype)
+	w.lastAns[k] = a
 	return a
 }
 
@@ -879,7 +905,7 @@ func (w *dnsWorld) react(q *dnsUpQuery) {
 		w.envBudget--
 	}
 	right := func() *dnsAns {
-		a := w.newAnswer(q.up, q.name, q.qtype)
+		a := w.nextAnswer(q.up, q.name, q.qtype)
 		a.forQuery, a.chain = q, q.chain
 		a.sentAt, a.sentStep = s.Now(), s.Step
 		q.answered = a
@@ -1054,11 +1080,22 @@ func (m dnsBitmapMatcher) MatchDomainBitmap(domain string) []uint32 {
 	return m.w.bitmapOf(m.w.nameIndex(domain))
 }
 
+// bitmapOf: the name's bitmap under the domain rules currently in force.
+func (w *dnsWorld) bitmapOf(name int) []uint32 { return w.bitmapOfGen(name, w.bitmapGen) }
+
 // bitmapOf: the domain-rule bitmap of a name (a pure function of the name; the
 // routing rule matcher itself is not under test here). Name 0 has the all-zero
 // bitmap, the others differ and overlap.
-func (w *dnsWorld) bitmapOf(name int) []uint32 {
+//
+// The table has generations (a reload may change the domain rules): in generations
+// 1 mod 3 the even names match no domain rule at all, in generations 2 mod 3 the odd
+// names, in generations 0 mod 3 every name has its base bitmap. So an owner's bitmap
+// goes non-zero -> zero -> non-zero over reloads while its addresses stay.
+func (w *dnsWorld) bitmapOfGen(name int, gen int) []uint32 {
 	b := make([]uint32, len(bpfDomainRouting{}.Bitmap))
+	if (gen%3 == 1 && name%2 == 0) || (gen%3 == 2 && name%2 == 1) {
+		return b
+	}
 	switch {
 	case name <= 0:
 	case name%2 == 1:
@@ -1096,6 +1133,16 @@ func (w *dnsWorld) controllerOption() *DnsControllerOption {
 	opt.OptimisticCache = w.cfg.optimistic
 	opt.OptimisticCacheTtl = w.cfg.staleTtl
 	opt.MaxCacheSize = w.cfg.maxSize
+	// remember which domain-rule bitmap each cache entry was created with (the oracle's
+	// "domain-rule bitmap of the cache entry"; the entry's own field is not read)
+	prodNew := opt.NewCache
+	opt.NewCache = func(fqdn string, answers, ns, extra []dnsmessage.RR, deadline time.Time, originalDeadline time.Time) (*DnsCache, error) {
+		c, err := prodNew(fqdn, answers, ns, extra, deadline, originalDeadline)
+		if c != nil {
+			w.entryBitmap[c] = w.bitmapOf(w.nameIndex(fqdn))
+		}
+		return c, err
+	}
 	opt.BestDialerChooser = w.chooseDialer
 	opt.TimeoutExceedCallback = func(*dialArgument, error) {}
 	// observe which path evicts an entry (the production callback still runs)
